@@ -295,5 +295,76 @@ def target_parse():
     return (f"{MOD}:{qual}", MOD, qual, run)
 
 
+def target_to_dict():
+    """DataSet.to_dict: the export is the view, point by point, with a private copy of the mask; nothing of the data set changes.
+    Together with _parse (keys/values rebuilt point by point, argument untouched) and __init__ this is export -> import = identity."""
+    qual = "DataSet.to_dict"
+
+    def run(sess: Session):
+        ex = executor(sess)
+        ex.consts["VERSION"] = z3.IntVal(2)
+        st = State()
+        me, n, f, Z, m0 = new_dataset(st)
+        pre = st.clone()
+        cnt = 0
+        for val, s1 in _call(ex, qual, st, me):
+            if isinstance(val, Raised):
+                sess.check("exc-free", s1.pc, z3.BoolVal(False), val.exc.line, label=val.exc.name)
+                continue
+            cnt += 1
+            out = s1.deref(val)
+            ok = isinstance(out, PyDict) and set(out.items) == {"version", "path", "label", "frequencies", "real_impedances", "imaginary_impedances", "mask", "uuid"}
+            sess.check("post", s1.pc, z3.BoolVal(ok), 0, label="keys")
+            if not ok:
+                continue
+            fo, ro, io = (s1.deref(out.items[k]) for k in ("frequencies", "real_impedances", "imaginary_impedances"))
+            i = fresh("i", I)
+            okl = all(isinstance(x, ListV) for x in (fo, ro, io))
+            sess.check("post", s1.pc, z3.And(fo.length() == n, ro.length() == n, io.length() == n, z3.ForAll([i], z3.Implies(z3.And(i >= 0, i < n), z3.And(
+                rel(fo, i) == rel(f, i), rel(ro, i) == Cx.re(rel(Z, i)), rel(io, i) == Cx.im(rel(Z, i)))))) if okl else z3.BoolVal(False), 0, label="f, Re Z, Im Z exported point by point, same order")
+            mo = s1.deref(out.items["mask"])
+            sess.check("post", s1.pc, mo.same_as(m0) if isinstance(mo, DictV) else z3.BoolVal(False), 0, label="mask exported as is")
+            sess.check("frame", s1.pc, z3.BoolVal(isinstance(out.items["mask"], Ref) and out.items["mask"].addr != s1.deref(me).fields["_mask"].addr), 0, label="exported mask is a copy")
+            sess.check("frame", s1.pc, z3.And(wf(s1, me, n), unchanged_arrays(pre, s1, me), s1.deref(s1.deref(me).fields["_mask"]).same_as(m0)), 0, label="data set unchanged")
+            sess.check("post", s1.pc, z3.BoolVal(out.items["uuid"] is s1.deref(me).fields["uuid"] and out.items["label"] is s1.deref(me).fields["_label"] and out.items["path"] is s1.deref(me).fields["_path"]), 0, label="path, label, uuid exported")
+        sess.check("cover", [], z3.BoolVal(cnt == 1), 0, label="one normal exit")
+    return (f"{MOD}:{qual}", MOD, qual, run)
+
+
+def target_subtract():
+    """DataSet.subtract_impedances(z): Z_i := Z_i - z_i (array of the same length) or Z_i - z (one value); f and mask untouched"""
+    qual = "DataSet.subtract_impedances"
+
+    def run(sess: Session):
+        for shape in ("array", "scalar"):
+            ex = executor(sess)
+            ex.consts["_is_complex_array"] = ("builtin", lambda ex_, st_, a, kw, nd: [(z3.BoolVal(True), st_)])
+            st = State()
+            me, n, f, Z, m0 = new_dataset(st)
+            if shape == "array":
+                arg = st.alloc(ListV(fresh("z", z3.ArraySort(I, Cx)), z3.IntVal(0), n))
+            else:
+                arg = fresh("z", Cx)
+            pre = st.clone()
+            try:
+                outs = _call(ex, qual, st, me, args=[arg])
+            except Unsupported as u:
+                sess.unsupported(f"[{shape}] {u}")
+                continue
+            for val, s1 in outs:
+                if isinstance(val, Raised):
+                    sess.check("exc-free", s1.pc, z3.BoolVal(False), val.exc.line, label=f"[{shape}]{val.exc.name}")
+                    continue
+                o = s1.deref(me)
+                Z1 = s1.deref(o.fields["_impedances"])
+                i = fresh("i", I)
+                zi = rel(st.deref(arg), i) if shape == "array" else arg
+                want = Cx.mk(Cx.re(rel(Z, i)) - Cx.re(zi), Cx.im(rel(Z, i)) - Cx.im(zi))
+                sess.check("post", s1.pc, z3.And(Z1.length() == n, z3.ForAll([i], z3.Implies(z3.And(i >= 0, i < n), rel(Z1, i) == want))) if isinstance(Z1, ListV) else z3.BoolVal(False), 0, label=f"[{shape}]Z_i := Z_i - z_i, index by index")
+                f1 = s1.deref(o.fields["_frequencies"])
+                sess.check("frame", s1.pc, z3.And(z3.BoolVal(_same(f1, f)), s1.deref(o.fields["_mask"]).same_as(m0), o.fields["_num_points"] == n), 0, label=f"[{shape}]frequencies, mask, size untouched")
+    return (f"{MOD}:{qual}", MOD, qual, run)
+
+
 def targets():
-    return [target_set_mask(), target_get_mask(), target_getters(), target_pass("low_pass"), target_pass("high_pass"), target_init(), target_parse()]
+    return [target_set_mask(), target_get_mask(), target_getters(), target_pass("low_pass"), target_pass("high_pass"), target_init(), target_parse(), target_to_dict(), target_subtract()]
